@@ -248,7 +248,7 @@ func (r *run) generateHistories() {
 	for t := 0; t < 4; t++ {
 		signer := typeBase(t)
 		other := typeBase((t+1)%4) + 1
-		for _, provider := range []int{signer, (signer + 3) % len(pool.Ids)} {
+		for _, provider := range []int{signer, (signer + 3) % nSmall} {
 			plain := func() scenario { s := baseScenario(seed(), signer, provider); s.Prev = t%2 == 0; return *s }
 			ext := func(n, mainPos int, ov bool) scenario {
 				return *withEps(baseScenario(seed(), signer, provider), n, mainPos, ov)
